@@ -409,8 +409,35 @@ func (x *Exec) applyContract(st *State, in *ssa.Call, k *FuncSpec, sig *types.Si
 	env.old = pre
 	env.oldVars = env.vars
 	x.calls[calleeName]++
-	ord := x.calls[calleeName]
-	_ = ord
+	// caller-side assertions for this call site (only in the function under verification itself)
+	if x.spec != nil && len(x.spec.CallAsserts) > 0 && len(st.frames) == 1 {
+		nth := 0
+		key := "callcount:" + calleeName
+		if v, ok := st.heap[key]; ok {
+			n64, _ := isLitInt(v)
+			nth = int(n64)
+		}
+		nth++
+		st.heap[key] = mkInt(int64(nth))
+		for _, ca := range x.spec.CallAsserts {
+			if !strings.HasSuffix(calleeName, ca.Callee) || (ca.Ord != 0 && ca.Ord != nth) {
+				continue
+			}
+			cenv := x.selfEnv(st)
+			for i, n := range pnames {
+				if i < len(args) {
+					cenv.bind("arg_"+n, args[i], ptypes[i])
+				}
+			}
+			label := ca.C.Label
+			if label == "" {
+				label = fmt.Sprintf("%s.%d", shortCallee(ca.Callee), nth)
+			}
+			g := x.evalBool(cenv, ca.C.E)
+			x.oblige(st, "atcall", label, g, "at the call of "+calleeName+": "+ca.C.Src, in.Pos())
+			x.assumeIn(st, g)
+		}
+	}
 	for i, c := range k.Requires {
 		label := c.Label
 		if label == "" {
@@ -526,11 +553,7 @@ func (x *Exec) havocLocs(st *State, env *Env, locs []Loc) {
 				panic("modifies: unknown ghost " + l.Ghost)
 			}
 			name := "G|" + l.Ghost
-			rs := x.ghostSort(g)
-			if l.Base != nil {
-				_ = rs
-			}
-			st.heap[name] = x.fresh("havoc_"+l.Ghost, arrSort(SInt, rs))
+			st.heap[name] = x.fresh("havoc_"+l.Ghost, x.ghostHeapSort(g))
 		case l.Type != "":
 			T := env.resolveType(l.Type)
 			x.havocFieldAll(st, T, l.Field)
